@@ -5574,3 +5574,129 @@ def sm2(m, run, rule='SM2.mesh-file-round-trip-on-real-classes'):
             fe = m.func(exp)
             run.ob(rule, key, why is None, 'degrees, sizes, knot vectors and homogeneous control points come back exactly, position by position' if why is None else why,
                    'geomdl/exchange.py:%d in %s' % (fe.node.lineno, fe.key))
+
+
+# ====================================================================================== C14: control point text / CSV formats, round trip on real classes
+def tx2(m, run, rule='TX2.text-formats-round-trip-on-real-classes'):
+    """TX2: exchange.export_txt / export_csv interpreted in text mode on a curve and a non-square surface (rational and B-spline) built
+    by the classes' own constructors and setters with exact symbolic control points, default and custom separators, the file kept in memory:
+    the text is one control point per line in storage order - or, two-dimensional, one line per u index holding the points of that row for
+    v = 0 .. size_v - 1 separated by the column separator - (CSV: after one header line); exchange.import_txt / import_csv interpreted on
+    that text return the very control points (rational: homogeneous) and, two-dimensional, size_u = number of lines, size_v = number of columns"""
+    from .skel import Sym, _float
+    from .poly import Poly
+    shapes = (('Curve', (2,), (4,)), ('Surface', (2, 1), (3, 4)))
+    for cname, degs, sizes in shapes:
+        pdim = len(degs)
+        total = 1
+        for s_ in sizes:
+            total *= s_
+        for mod in ('NURBS', 'BSpline'):
+            variants = [('txt', False, {}), ('txt', False, {'separator': ' '}), ('csv', False, {})]
+            if pdim == 2:
+                variants += [('txt', True, {}), ('txt', True, {'separator': ' ', 'col_separator': '|'})]
+            else:
+                variants += [('txt', True, {})]          # the flag is ignored for curves
+            for fmt, two_d, kw in variants:
+                key = 'exchange.export_%s -> import_%s :: %s.%s%s%s' % (fmt, fmt, mod, cname, ', two_dimensional' if two_d else '', ', separators %r' % kw if kw else '')
+                files = {}
+                ab = dict(STD_ABSTRACTED)
+                ab[('knotvector', 'normalize')] = Py(lambda sk, node, kv, *a, **k: [Ord(x.rank) for x in kv], 'knotvector.normalize')
+                ab[('_exchange', 'write_file')] = Py(lambda sk, node, name, content, **k: files.__setitem__(name, content) or True, 'write_file')
+
+                def rd(sk, node, name, **k):
+                    t = files[name]
+                    n_ = k.get('skip_lines', 0)
+                    return '\n'.join(t.split('\n')[n_:]) if n_ else t
+                ab[('_exchange', 'read_file')] = Py(rd, 'read_file')
+                sk = SK(m, ab)
+                sk.exact = True
+                sk.text = True
+                sk.construct = True
+                why = None
+                try:
+                    src = sk.apply(('class', (mod, cname)), [], {}, None)
+                    sfx = [''] if pdim == 1 else ['_' + 'uvw'[d] for d in range(pdim)]
+                    for d in range(pdim):
+                        sk.call(m.lookup(src._cls, 'degree' + sfx[d], 'setters'), [src, degs[d]], {})
+                    hd = 4 if mod == 'NURBS' else 3
+                    P = [[Poly.atom('P%d_%d' % (i, c)) for c in range(hd)] for i in range(total)]
+                    sk.call(m.lookup(src._cls, 'set_ctrlpts', 'methods'), [src, [[Sym(x) for x in r] for r in P]] + (list(sizes) if pdim > 1 else []), {})
+                    if fmt == 'txt':
+                        sk.call(m.func('exchange.export_txt'), [src, 'pts.txt'], dict(kw, two_dimensional=two_d))
+                    else:
+                        sk.call(m.func('exchange.export_csv'), [src, 'pts.txt'], {'point_type': 'ctrlpts'})
+                    text = files.get('pts.txt')
+                    sep, col = kw.get('separator', ','), kw.get('col_separator', ';')
+                    eff2d = two_d and pdim == 2
+                    if not isinstance(text, str):
+                        why = 'no file is written'
+                    else:
+                        lines = text.split('\n')
+                        if lines and lines[-1] == '':
+                            lines = lines[:-1]
+                        if fmt == 'csv':
+                            lines = lines[1:]
+
+                        def point_of(txt_, idx, where):
+                            flds = [f_ for f_ in txt_.split(sep)]
+                            if len(flds) != hd:
+                                return '%s has %d fields, control point %d has %d coordinates' % (where, len(flds), idx, hd)
+                            for c in range(hd):
+                                v_ = _as_sym(_float(sk, None, flds[c]))
+                                if v_ is None or not v_.same(Sym(P[idx][c])):
+                                    return '%s field %d holds %r, expected coordinate %d of control point %d' % (where, c, v_, c, idx)
+                            return None
+                        if eff2d:
+                            su, sv = sizes
+                            if len(lines) != su:
+                                why = 'the two-dimensional file has %d lines; one line per u index (%d) is documented' % (len(lines), su)
+                            for i in range(su if why is None else 0):
+                                cols = lines[i].split(col)
+                                if len(cols) != sv:
+                                    why = 'line %d has %d columns; the points of one u index for v = 0 .. %d are documented' % (i, len(cols), sv - 1)
+                                    break
+                                for j in range(sv):
+                                    why = point_of(cols[j], j + sv * i, 'line %d column %d' % (i, j))
+                                    if why:
+                                        break
+                                if why:
+                                    break
+                        else:
+                            if len(lines) != total:
+                                why = 'the file has %d point lines, the shape %d control points' % (len(lines), total)
+                            for k in range(total if why is None else 0):
+                                why = point_of(lines[k], k, 'line %d' % k)
+                                if why:
+                                    break
+                    if why is None:
+                        if fmt == 'txt':
+                            back = sk.call(m.func('exchange.import_txt'), ['pts.txt'], dict(kw, two_dimensional=two_d))
+                        else:
+                            back = sk.call(m.func('exchange.import_csv'), ['pts.txt'], {})
+                        if two_d:
+                            if not isinstance(back, tuple) or len(back) != 3:
+                                why = 'import with two_dimensional=True does not return (points, size_u, size_v)'
+                            else:
+                                pts_, a_, b_ = back
+                                if pdim == 2 and (a_, b_) != tuple(sizes):
+                                    why = 'the importer reports the sizes (%r, %r), the exported surface has %r' % (a_, b_, tuple(sizes))
+                        else:
+                            pts_ = back
+                        if why is None and not (two_d and pdim == 1):
+                            if not isinstance(pts_, list) or len(pts_) != total:
+                                why = 'the importer returns %r points, %d were exported' % (len(pts_) if isinstance(pts_, list) else pts_, total)
+                            for i in range(total if why is None else 0):
+                                for c in range(hd):
+                                    v_ = _as_sym(pts_[i][c]) if len(pts_[i]) > c else None
+                                    if v_ is None or not v_.same(Sym(P[i][c])):
+                                        why = 'control point %d coordinate %d comes back as %r, exported %r' % (i, c, v_, P[i][c])
+                                        break
+                                if why:
+                                    break
+                except Violation as v:
+                    why = '%s %s' % (v.msg, v.where())
+                except Unsupported as ex:
+                    raise AnalysisError('%s: interpreter met an unsupported construct: %s' % (key, ex))
+                fe = m.func('_exchange.export_text_data')
+                run.ob(rule, key, why is None, 'documented line / column order; the control points come back exactly' if why is None else why, 'geomdl/_exchange.py:%d in %s' % (fe.node.lineno, fe.key))
